@@ -72,7 +72,7 @@ def gen_workload(tape):
     family = tape.choice('family', ['inference', 'dag'])
     if family == 'inference':
         spec = sp.gen_inference_spec(tape, disc_kinds=('disc', 'dist'), ties=False, all_rec=True,
-                                     latent=True)
+                                     latent=True, ext=True)
         d = [n for n in spec['nodes'] if n['name'] == 'd'][0]
         if d['kind'] == 'disc' and tape.chance('lattice', 1, 3):
             # count-like discrepancies: exact ties, and thresholds that are exactly 0
